@@ -29,7 +29,6 @@
 package c16
 
 import (
-	"bufio"
 	"fmt"
 	"io"
 	"log"
@@ -50,6 +49,7 @@ type caseData struct {
 	Seed int64  `json:"seed"`
 	N    int    `json:"n"`
 	Only int    `json:"only,omitempty"` // replay aid: only the i-th sub-case (1-based)
+	File string `json:"file,omitempty"` // kind "scan" (development aid): scan this strace log
 }
 
 func init() {
@@ -116,6 +116,13 @@ func run(c core.Case, verbose bool) core.Result {
 	core.U(c, &d)
 	var res core.Result
 	rc := &runCtx{res: &res, caseID: c.ID, verbose: verbose, markers: c.Mode == "strace" || os.Getenv("C16_MARKERS") != ""}
+	if d.Kind == "scan" {
+		st := scanStrace([]string{d.File}, func(caseID string, only int, v core.Violation) { res.Violations = append(res.Violations, v) })
+		for k, v := range st {
+			res.Stat(k, v)
+		}
+		return res
+	}
 	rng := rand.New(rand.NewSource(d.Seed))
 	var valid []byte
 	if d.Kind == "mutants" {
@@ -242,17 +249,6 @@ func rawListing(t []byte) string {
 
 // ---------------------------------------------------------------- post: minimum counts + strace scan
 
-var (
-	straceLine = regexp.MustCompile(`^(\d+)\s+([a-z0-9_]+)\((.*)\)\s+=\s+(-?\d+|\?)`)
-	quoted     = regexp.MustCompile(`"((?:[^"\\]|\\.)*)"`)
-	pidPrefix  = regexp.MustCompile(`^(\d+)\s+(.*)$`)
-	resumedRe  = regexp.MustCompile(`^<\.\.\. (\w+) resumed>(.*)$`)
-)
-
-var mutatingCalls = map[string]bool{"open": true, "openat": true, "openat2": true, "creat": true, "mkdir": true, "mkdirat": true, "unlink": true, "unlinkat": true,
-	"rename": true, "renameat": true, "renameat2": true, "link": true, "linkat": true, "symlink": true, "symlinkat": true, "chmod": true, "fchmodat": true,
-	"chown": true, "lchown": true, "fchownat": true, "truncate": true, "utime": true, "utimes": true, "utimensat": true, "futimesat": true, "mknod": true, "mknodat": true, "rmdir": true, "setxattr": true, "lsetxattr": true}
-
 func post(a *core.Agg) string {
 	var miss []string
 	need := map[string]int64{"subcases_LoadArchive": 500, "subcases_Expand": 500, "subcases_Extract": 500, "subcases_Pull": 100, "subcases_DownloadTo": 60,
@@ -266,12 +262,23 @@ func post(a *core.Agg) string {
 	}
 	files, _ := filepath.Glob(filepath.Join(a.Scratch, "strace-*"))
 	if a.Tier == "thorough" {
-		inspected, inside, flagged := scanStrace(a, files)
-		a.Stats["strace_file_syscalls_inspected"] = inspected
-		a.Stats["strace_file_syscalls_inside_helm_calls"] = inside
-		a.Stats["strace_canary_zone_hits"] = flagged
-		if inside < 1000 {
-			miss = append(miss, fmt.Sprintf("strace_file_syscalls_inside_helm_calls=%d (<1000)", inside))
+		st := scanStrace(files, func(caseID string, only int, v core.Violation) {
+			rcase := core.Case{ID: "strace-scan", Data: core.J(map[string]any{"case": caseID, "only": only})}
+			for _, c := range genCases(a.Seed, a.Tier) {
+				if c.ID == caseID {
+					var d caseData
+					core.U(c, &d)
+					d.Only = only
+					rcase = core.Case{ID: c.ID, Mode: c.Mode, Data: core.J(d)}
+				}
+			}
+			a.ExtraViol = append(a.ExtraViol, core.CaseViolation{Case: rcase, V: v})
+		})
+		for k, v := range st {
+			a.Stats[k] = v
+		}
+		if st["strace_file_syscalls_inside_helm_calls"] < 1000 {
+			miss = append(miss, fmt.Sprintf("strace_file_syscalls_inside_helm_calls=%d (<1000)", st["strace_file_syscalls_inside_helm_calls"]))
 		}
 	}
 	sort.Strings(miss)
@@ -279,105 +286,4 @@ func post(a *core.Agg) string {
 		return "monitors observed too little: " + strings.Join(miss, ", ")
 	}
 	return ""
-}
-
-// scanStrace walks the strace logs; between a begin and an end marker every successful
-// path-taking syscall whose path argument names the sibling/canary zones is a finding.
-func scanStrace(a *core.Agg, files []string) (inspected, inside, flagged int64) {
-	seen := map[string]bool{}
-	for _, f := range files {
-		fh, err := os.Open(f)
-		if err != nil {
-			continue
-		}
-		sc := bufio.NewScanner(fh)
-		sc.Buffer(make([]byte, 1<<20), 1<<24)
-		cur := "" // "<caseID>/<idx>/<entry>" while inside a helm call
-		pending := map[string]string{}
-		for sc.Scan() {
-			line := sc.Text()
-			// "pid syscall(args) = ret"; an interrupted call is logged as "pid syscall(args <unfinished ...>"
-			// and later "pid <... syscall resumed>rest) = ret": stitch the two halves together
-			if pm := pidPrefix.FindStringSubmatch(line); pm != nil {
-				pid, rest := pm[1], pm[2]
-				if strings.HasSuffix(rest, "<unfinished ...>") {
-					pending[pid] = strings.TrimSuffix(rest, "<unfinished ...>")
-					continue
-				}
-				if rm := resumedRe.FindStringSubmatch(rest); rm != nil {
-					head, ok := pending[pid]
-					if !ok {
-						head = rm[1] + "("
-					}
-					delete(pending, pid)
-					line = pid + " " + head + rm[2]
-				}
-			}
-			m := straceLine.FindStringSubmatch(line)
-			if m == nil {
-				continue
-			}
-			inspected++
-			call, args, ret := m[2], m[3], m[4]
-			if i := strings.Index(args, "/c16-mark/"); i >= 0 {
-				rest := args[i+len("/c16-mark/"):]
-				if j := strings.IndexByte(rest, '"'); j >= 0 {
-					rest = rest[:j]
-				}
-				if strings.HasPrefix(rest, "begin/") {
-					cur = strings.TrimPrefix(rest, "begin/")
-				} else {
-					cur = ""
-				}
-				continue
-			}
-			if cur == "" {
-				continue
-			}
-			inside++
-			if ret == "?" || strings.HasPrefix(ret, "-") {
-				continue
-			}
-			for _, q := range quoted.FindAllStringSubmatch(args, -1) {
-				p := q[1]
-				if !strings.Contains(p, "outside-zone") && !strings.Contains(p, "canary-zone") && !strings.Contains(p, "canary-at-") && !strings.Contains(p, "canary-mid") {
-					continue
-				}
-				if !mutatingCalls[call] {
-					a.Stats["strace_stat_family_calls_on_canary_paths"]++
-					continue
-				}
-				flagged++
-				parts := strings.SplitN(cur, "/", 3)
-				entry := cur
-				if len(parts) == 3 {
-					entry = parts[2]
-				}
-				sig := fmt.Sprintf("%s | successful %s on a canary-zone path", entry, call)
-				if seen[sig] {
-					continue
-				}
-				seen[sig] = true
-				var only int
-				if len(parts) == 3 {
-					fmt.Sscanf(parts[1], "%d", &only)
-				}
-				rcase := core.Case{ID: "strace-scan", Data: core.J(map[string]any{"marker": cur, "line": line})}
-				for _, c := range genCases(a.Seed, a.Tier) {
-					if len(parts) == 3 && c.ID == parts[0] {
-						var d caseData
-						core.U(c, &d)
-						d.Only = only
-						rcase = core.Case{ID: c.ID, Mode: c.Mode, Data: core.J(d)}
-					}
-				}
-				a.ExtraViol = append(a.ExtraViol, core.CaseViolation{
-					Case: rcase,
-					V:    core.Violation{Clause: "strace-canary-access", Class: sig, Detail: fmt.Sprintf("during %s: %s", cur, line)},
-				})
-			}
-		}
-		fh.Close()
-	}
-	return
 }
